@@ -309,10 +309,39 @@ theorem comment_single_dash_accepted :
       ([60, 75, 101, 121, 62] ++ [60, 33, 45, 45, 32, 97, 32, 45, 32, 98, 32, 45, 45, 62] ++ [107, 60, 47, 75, 101, 121, 62]))))
       = some [107] := by decide
 
+/-- `<Key>a]]>b</Key>` (the witness `w-illformed-cdata-end`, inside `<Tag>` there) -/
+def docCdataEnd : Bytes := [60, 75, 101, 121, 62, 97, 93, 93, 62, 98, 60, 47, 75, 101, 121, 62]
+
+/-- F-xml-5g (`xml-illformed-accepted:cdata-end`, FIXED by fc97754): character data that holds `]]>` is refused with
+`InvalidContent` (before: accepted as `a]]>b`) … -/
+theorem cdata_end_refused :
+    errOf (decodeDoc X0 (.named key) .str (deEvents (tokenize docCdataEnd))) = some .invalidContent := by decide
+
+/-- … also where the text is only skipped: `<Tag>]]><Key>k</Key></Tag>` (read as a `Key` under the root `Tag`) … -/
+theorem cdata_end_skipped_refused :
+    deEvents (tokenize ([60, 84, 97, 103, 62, 93, 93, 62] ++ [60, 75, 101, 121, 62, 107, 60, 47, 75, 101, 121, 62] ++
+      [60, 47, 84, 97, 103, 62])) = [.start [84, 97, 103] [], .bad .invalidContent] := by decide
+
+/-- … the specification: `]]>` is no character data … -/
+theorem cdata_end_illformed :
+    (match XmlSpec.parse docCdataEnd with | .error (.illFormed _) => true | _ => false) = true := by decide
+
+/-- … written as `]]&gt;` — the way the serialiser writes it — the string `a]]>b` is read, and survives the round trip … -/
+theorem cdata_end_escaped_accepted :
+    strOf (decodeDoc X0 (.named key) .str (deEvents (tokenize
+      (write (encodeDoc (.named key none) .str (.str [97, 93, 93, 62, 98])))))) = some [97, 93, 93, 62, 98] := by decide
+
+/-- … and `]]>` still ends a CDATA section: `<Key><![CDATA[a]]]]><![CDATA[>b]]></Key>` is `a]]>b` -/
+theorem cdata_end_in_sections_accepted :
+    strOf (decodeDoc X0 (.named key) .str (deEvents (tokenize
+      ([60, 75, 101, 121, 62] ++ [60, 33, 91, 67, 68, 65, 84, 65, 91, 97, 93, 93, 93, 93, 62] ++
+       [60, 33, 91, 67, 68, 65, 84, 65, 91, 62, 98, 93, 93, 62] ++ [60, 47, 75, 101, 121, 62]))))
+      = some [97, 93, 93, 62, 98] := by decide
+
 /-- `<Key a=b>k</Key>` -/
 def docAttr : Bytes := [60, 75, 101, 121, 32, 97, 61, 98, 62, 107, 60, 47, 75, 101, 121, 62]
 
-/-- F-xml-5b (`xml-illformed-accepted:attribute-syntax`, open — like the clauses 5c … 5g, 5i, 5j): an unquoted attribute value
+/-- F-xml-5b (`xml-illformed-accepted:attribute-syntax`, open — like the clauses 5c … 5f, 5i, 5j): an unquoted attribute value
 is accepted … -/
 theorem illformed_accepted :
     strOf (decodeDoc X0 (.named key) .str (deEvents (tokenize docAttr))) = some [107] := by decide
